@@ -33,6 +33,13 @@ class MyCancel(CancelMutation):
 BODY_EXCEPTIONS = {
     "ValueError": ValueError, "KeyError": KeyError, "UserError": UserError, "KeyboardInterrupt": KeyboardInterrupt,
     "SystemExit": SystemExit, "GeneratorExit": GeneratorExit, "CancelMutation": CancelMutation, "MyCancel": MyCancel,
+    # classes the library itself catches or raises while loading and saving: raised by the body they are the body's
+    "UnicodeEncodeError": UnicodeEncodeError, "UnicodeDecodeError": UnicodeDecodeError, "FileNotFoundError": FileNotFoundError,
+}
+BODY_FACTORIES = {
+    "UnicodeEncodeError": lambda: UnicodeEncodeError("ascii", "\xe9", 0, 1, "ordinal not in range(128)"),
+    "UnicodeDecodeError": lambda: UnicodeDecodeError("utf-8", b"\xff", 0, 1, "invalid start byte"),
+    "FileNotFoundError": lambda: FileNotFoundError(2, "No such file or directory", "elsewhere.sm"),
 }
 UNENCODABLE = {"utf-8": "\ud800", "cp1252": "猫", "cp932": "한", "cp949": "\U0001f600", "ascii": "é"}
 def content_for(enc):
@@ -53,7 +60,7 @@ class Injected(OSError):
     pass
 
 
-def run(world, ext, data, output, backup, script, body_exc_at=None, body_exc=None, final_op=None, fail_at=None, record=False, stale=False):
+def run(world, ext, data, output, backup, script, body_exc_at=None, body_exc=None, final_op=None, fail_at=None, record=False, stale=False, errors=None):
     """
     One mutate run under the seam.  Returns dict with: result ('ok' | ('exc', obj)), before/after
     snapshots, calls (numbered log), entry/exit observations.
@@ -84,7 +91,8 @@ def run(world, ext, data, output, backup, script, body_exc_at=None, body_exc=Non
     state = {}
     raised = None
     try:
-        with simfile.mutate(inp, output_filename=out, backup_filename=bak, filesystem=fs) as sf:
+        extra_kw = {} if errors is None else {"errors": errors}  # keyword arguments are passed on to the filesystem's open()
+        with simfile.mutate(inp, output_filename=out, backup_filename=bak, filesystem=fs, **extra_kw) as sf:
             state["entry"] = MU.canon_obs(sf)
             enc = MU.expected_encoding(data, MU.ENCODINGS)
             for i, op in enumerate(script):
@@ -320,13 +328,13 @@ def do_case(case):
     kind = case["kind"]
     st = case.get("stale", False)
     if kind == "body":
-        r = run(w, ext, data, case["output"], case["backup"], script, body_exc_at=case["at"], body_exc=BODY_EXCEPTIONS[case["exc"]], stale=st)
+        r = run(w, ext, data, case["output"], case["backup"], script, body_exc_at=case["at"], body_exc=BODY_FACTORIES.get(case["exc"], BODY_EXCEPTIONS[case["exc"]]), stale=st)
         return fails_body(r, case["exc"]), r
     if kind == "serialization":
         r = run(w, ext, data, case["output"], case["backup"], script, final_op=serialization_faults(ext)[case["fault"]], stale=st)
         return fails_save_failure(r, "cannot be serialized") + fails_after_failure(w, ext, enc, case["with_chart"]), r
     if kind == "encoding":
-        r = run(w, ext, data, case["output"], case["backup"], script, final_op=encoding_faults(enc)[case["fault"]], stale=st)
+        r = run(w, ext, data, case["output"], case["backup"], script, final_op=encoding_faults(enc)[case["fault"]], stale=st, errors=case.get("errors"))
         return fails_save_failure(r, "cannot be encoded in the detected encoding") + fails_after_failure(w, ext, enc, case["with_chart"]), r
     if kind == "io":
         r = run(w, ext, data, case["output"], case["backup"], script, fail_at=case["k"], stale=st)
@@ -436,14 +444,19 @@ def explore_shard(acc, shard):
                             for f in fails:
                                 acc.violation(f["clause"], case, f.get("expected"), f.get("observed"), signature=(f["clause"],))
                         for fault in encoding_faults(enc):
-                            case = dict(base, kind="encoding", script=list(script), fault=fault)
-                            core.guard_cheap(acc, case)
-                            fails, _ = do_case(case)
-                            acc.count("evaluations")
-                            acc.count("nontrivial")
-                            acc.outcome("encoding fault")
-                            for f in fails:
-                                acc.violation(f["clause"], case, f.get("expected"), f.get("observed"), signature=(f["clause"],))
+                            # for UTF-8 files also with a lenient error handler passed through to open() that does
+                            # not cover the character (surrogateescape only maps U+DC80..U+DCFF)
+                            for errors in ((None, "surrogateescape") if enc == "utf-8" else (None,)):
+                                case = dict(base, kind="encoding", script=list(script), fault=fault, errors=errors)
+                                core.guard_cheap(acc, case)
+                                fails, _ = do_case(case)
+                                acc.count("evaluations")
+                                acc.count("nontrivial")
+                                acc.outcome("encoding fault")
+                                if errors:
+                                    acc.outcome("encoding fault with an errors= handler passed on to open()")
+                                for f in fails:
+                                    acc.violation(f["clause"], case, f.get("expected"), f.get("observed"), signature=(f["clause"],))
                     # I/O faults: every call index of the fault-free run
                     for script in scripts[: 1 + len(MU.EDITS)]:
                         case0 = dict(base, kind="faultfree", script=list(script))
@@ -505,6 +518,7 @@ def explore(run_):
     for what in ("body fault: cancel", "body fault: exception", "serialization fault", "encoding fault", "I/O fault at open", "I/O fault at write", "I/O fault at close"):
         core.require(acc.outcomes[what] > 0, f"never exercised: {what}")
     core.require(acc.outcomes["file larger than 65536 characters"] > 0 and acc.outcomes["file larger than one MiB"] > 0, "no big file")
+    core.require(acc.outcomes["encoding fault with an errors= handler passed on to open()"] > 0, "errors= never passed")
     core.require(acc.outcomes["output name that denotes the input file"] > 0, "output name = input never tried")
     core.require(acc.outcomes["output / backup name already taken by an older file"] > 0, "no pre-existing output / backup file")
     return run_.finish(
